@@ -22,6 +22,10 @@ CHECKS = {
    technique="stateless model checking of the real sema_llgo.go (semaphores, notify list) under a controlled scheduler against reference semaphore/ticket specifications",
    text="semaAcquire/semaRelease and the notify-list functions are run from the working-tree source with every mutex, condition variable and atomic operation a scheduling point: all programs of <=3 Acquire/Release operations on 1-2 semaphores for 2-3 threads, and all waiter/notifier mixes for 2-3 threads, under every interleaving within the bounds. A terminal state must be reachable in the reference specification, which rules out lost wake-ups (a thread asleep while the count is positive or its ticket is covered), over-admission and waits that return without a notification.",
    note="sync.Mutex/RWMutex/WaitGroup/Once/Cond are Go's own code on top of these primitives (not re-explored); hardware memory ordering of atomics, the go statement and atomic.Value are not covered yet.", ref="§4 C11"),
+ "C16": dict(cat="exploration", engine="enum",
+   technique="bounded-exhaustive enumeration of directory trees x go:embed pattern lists, real goembed package vs `go list` of the reference toolchain",
+   text="Every subset of <=2 (thorough 3) of 22 tree entries chosen around Go's embed rules (hidden and underscore names, all:, VCS directories, nested modules, empty dirs, symlinks, invalid names, sibling-prefix names) plus the full tree, crossed with 41 pattern lists and directive-text variants, is materialised on disk; LoadDirectives/ResolvePatterns must accept exactly what `go list` accepts and embed exactly the same files with the bytes on disk, and BuildFSEntries must produce the table order embed.FS searches.",
+   note="Oracle is go1.24.0's go list; the materialisation of embedded data into globals by cl/embed.go (compiled programs) is not covered yet.", ref="§4 C16"),
 }
 ALL = ["C%02d" % i for i in range(1, 21)]
 m = {
